@@ -1,1 +1,19 @@
-From PC Require Import Model.Marker.
+(* C13 — marker normal forms and marker text.
+   The normal-form search (cnf/dnf) is level 2 and not yet modelled; every cnf/dnf/intersect/union/invert result of
+   the implementation is printed, re-parsed (poetry-core and the reference parser) and compared on the environment
+   grid by the oracle, and the model evaluates and prints the same structures (byte-identical text required).
+   Proved: the two facts the text/structure relation rests on. *)
+From Coq Require Import List Bool NArith String.
+From PC Require Import Base.Result Model.Generic Model.Marker Proofs.MarkerProofs.
+Import ListNotations.
+
+(* evaluation depends on the Boolean structure only *)
+Theorem C13_structure : forall E m, leaves_ok E m = true -> validate m E = Ok (beval E m).
+Proof. exact validate_beval. Qed.
+Print Assumptions C13_structure.
+(* re-building a conjunction / disjunction from its members (what parsing the printed text does) keeps the meaning *)
+Theorem C13_rebuild : forall E,
+  (forall a b, marker_eqb a b = true -> beval E a = beval E b) ->
+  forall l, beval E (mk_union_marker l) = existsb (beval E) l /\ beval E (mk_multi_marker l) = forallb (beval E) l.
+Proof. intros E H l. split; [apply flatten_union_sound | apply flatten_multi_sound]; exact H. Qed.
+Print Assumptions C13_rebuild.
